@@ -1,5 +1,11 @@
 package main
 
+import (
+	"go/ast"
+	"go/token"
+	"strconv"
+)
+
 // extractAll lists, per package, the facts the Lean model depends on. Each block is added when the
 // corresponding part of the model is written; every name listed is *required* (fail closed).
 func extractAll(root string, o *out) {
@@ -12,4 +18,58 @@ func extractAll(root string, o *out) {
 	for _, n := range []string{"SEP", "NSEP", "RangePointKeyMarker", "FeaturesKey", "ResourceRecordsKeyMarker"} {
 		o.bytes("dnsdata_"+n, need(env, "dnsdata", n))
 	}
+
+	o.sb.WriteString("\n/-! dnsserver/handler.go -/\n")
+	dnsserver := load(root, "dnsserver")
+	denv := dnsserver.topLevel()
+	o.nat("dnsserver_DefaultMaxAnswer", need(denv, "dnsserver", "DefaultMaxAnswer"))
+	// the format string of the response-cache key: first argument of the fmt.Sprintf call assigned
+	// to `cacheKey` in ServeDNSWithRCODE
+	o.str("dnsserver_cacheKeyFormat", sprintfFormatAssignedTo(dnsserver, "FBDNSDB.ServeDNSWithRCODE", "cacheKey"))
+
+	o.sb.WriteString("\n/-! dnsdata/rdb -/\n")
+	rdb := load(root, "dnsdata/rdb")
+	renv := rdb.topLevel()
+	o.nat("rdb_DefaultBatchSize", need(renv, "rdb", "DefaultBatchSize"))
+	o.nat("rdb_NumberOfIterators", need(renv, "rdb", "NumberOfIterators"))
+}
+
+// sprintfFormatAssignedTo finds `<name> = fmt.Sprintf("<literal>", ...)` in function fn.
+func sprintfFormatAssignedTo(p *pkgInfo, fn, name string) string {
+	fd := p.funcDecl(fn)
+	found := ""
+	n := 0
+	ast.Inspect(fd.Body, func(nd ast.Node) bool {
+		as, ok := nd.(*ast.AssignStmt)
+		if !ok || len(as.Lhs) != 1 || len(as.Rhs) != 1 {
+			return true
+		}
+		id, ok := as.Lhs[0].(*ast.Ident)
+		if !ok || id.Name != name {
+			return true
+		}
+		call, ok := as.Rhs[0].(*ast.CallExpr)
+		if !ok {
+			return true
+		}
+		sel, ok := call.Fun.(*ast.SelectorExpr)
+		if !ok || sel.Sel.Name != "Sprintf" || len(call.Args) == 0 {
+			return true
+		}
+		lit, ok := call.Args[0].(*ast.BasicLit)
+		if !ok || lit.Kind != token.STRING {
+			return true
+		}
+		v, err := strconv.Unquote(lit.Value)
+		if err != nil {
+			return true
+		}
+		found = v
+		n++
+		return true
+	})
+	if n != 1 {
+		fail("%s: expected exactly one `%s = fmt.Sprintf(\"...\", …)`, found %d", fn, name, n)
+	}
+	return found
 }
